@@ -22,6 +22,33 @@ CHECKS = {
         "Trusts CPython as reference semantics and the probe kit's determinism. Loop bodies "
         "do not read the loop variable here (that is C01/C06).",
         "DESIGN.md section 3, C05"),
+    "C07": (
+        "complete sweep of probe-instrumented statement templates x 3 placements x 8 configurations + "
+        "Hypothesis-drawn target patterns with a probe at every leaf; oracle: equality of the ordered "
+        "probe/access log with CPython's",
+        "About 140 statement templates in which every subexpression is a logging probe and every "
+        "object/container logs attribute and item access (all assignment target shapes incl. chained "
+        "and starred, slices with every subset of bounds, 13 augmented operators on attribute / "
+        "subscript / name targets, def/class headers with decorators, defaults, bases, keywords and "
+        "metaclass, loop and if headers, calls, comparisons, comprehensions, f-strings) are run in "
+        "module, function and class placement under all 8 configurations; the complete event log "
+        "must equal CPython's. Further target patterns are drawn by Hypothesis.",
+        "Evaluation order inside an expression is inherited from Python unless the transformer "
+        "restructures it; covered by expression templates only.",
+        "DESIGN.md section 3, C07"),
+    "C13": (
+        "exhaustive enumeration of destructuring patterns x source lengths x source kinds and of the "
+        "operator x target x operand-kind x placement matrix of augmented assignment, + Hypothesis-"
+        "drawn deeper patterns; oracle: logged canonical value of every target and alias, store log",
+        "All depth-1/2 target patterns (leaves name/attribute/subscript/slice, star anywhere) x every "
+        "admissible source length and kind (list, tuple, str, range, generator, dict view, one-shot "
+        "iterator), and the complete 13 operators x 4 targets x 24 operand kinds x 5 placements matrix "
+        "(aliases taken before the statement so in-place vs rebinding is observable) are converted "
+        "and executed; values of all targets/aliases, the stores seen by logging objects and final "
+        "globals must equal CPython's. Cells whose original raises are outside the domain.",
+        "One open finding (in-place dunder called directly: NotImplemented / reflected fallback) is "
+        "excluded by operand kind.",
+        "DESIGN.md section 3, C13"),
     "C03": (
         "exhaustive slot x child composition to depth 3 + Hypothesis deep trees + stdlib corpus + "
         "converter-emitted trees; parser round-trip oracle (and ast.unparse differential)",
